@@ -33,6 +33,7 @@ use margined_perp::margined_pricefeed as pf;
 use margined_perp::margined_vamm as vm;
 
 pub const DENOM: &str = "uwasm";
+pub const FOREIGN_DENOM: &str = "ucosmos";
 pub const KEY: &str = "ETH"; // vAMM base_asset == price feed key
 
 pub type PApp = App<
@@ -97,6 +98,7 @@ pub struct Checkpoint {
     feed_len: usize,
     tx_count: u64,
     pub pause_shadow: bool,
+    pub foreign_next: u8,
 }
 
 // ---------------------------------------------------------------------------------------------
@@ -611,6 +613,8 @@ pub struct World {
     pub snap_count: std::cell::Cell<u64>,
     /// pause flag according to the accepted SetPause calls (fallback when the engine's storage shows no pause flag)
     pub pause_shadow: std::cell::Cell<bool>,
+    /// set by Op::ForeignCoin: the next engine transaction also attaches 7 units of FOREIGN_DENOM (1 = listed first, 2 = last)
+    pub foreign_next: std::cell::Cell<u8>,
 }
 
 fn u(v: u128) -> Uint128 {
@@ -635,19 +639,26 @@ impl World {
         let storage = SnapStorage::default();
         let store = storage.data.clone();
         let mut app: PApp = AppBuilder::new().with_bank(bank).with_storage(storage).with_custom(NoCustom).build(|router, _api, storage| {
+            if !native {
+                // a coin of a denomination that is nobody's collateral, for calls that attach a stray coin
+                for t in TRADERS.iter().chain(["liquidator", "stranger"].iter()) {
+                    router.bank.inner.init_balance(storage, &Addr::unchecked(*t), vec![Coin::new(1_000_000, FOREIGN_DENOM)]).unwrap();
+                }
+            }
             if native {
                 for t in TRADERS.iter() {
                     router
                         .bank
                         .inner
-                        .init_balance(storage, &Addr::unchecked(*t), vec![Coin::new(tf, DENOM)])
+                        .init_balance(storage, &Addr::unchecked(*t), vec![Coin::new(tf, DENOM), Coin::new(1_000_000, FOREIGN_DENOM)])
                         .unwrap();
                 }
                 router
                     .bank
                     .inner
-                    .init_balance(storage, &Addr::unchecked("liquidator"), vec![Coin::new(tf, DENOM)])
+                    .init_balance(storage, &Addr::unchecked("liquidator"), vec![Coin::new(tf, DENOM), Coin::new(1_000_000, FOREIGN_DENOM)])
                     .unwrap();
+                router.bank.inner.init_balance(storage, &Addr::unchecked("stranger"), vec![Coin::new(1_000_000, FOREIGN_DENOM)]).unwrap();
                 router
                     .bank
                     .inner
@@ -837,6 +848,7 @@ impl World {
             pos_by_query: std::cell::Cell::new(false),
             snap_count: std::cell::Cell::new(0),
             pause_shadow: std::cell::Cell::new(false),
+            foreign_next: std::cell::Cell::new(0),
         };
         w.deploy_height = w.height();
         w.deploy_time = w.now();
@@ -892,6 +904,7 @@ impl World {
             feed_len: self.feed_hist.len(),
             tx_count: self.tx_count,
             pause_shadow: self.pause_shadow.get(),
+            foreign_next: self.foreign_next.get(),
         }
     }
     pub fn restore(&mut self, cp: Checkpoint) {
@@ -900,6 +913,7 @@ impl World {
         self.feed_hist.truncate(cp.feed_len);
         self.tx_count = cp.tx_count;
         self.pause_shadow.set(cp.pause_shadow);
+        self.foreign_next.set(cp.foreign_next);
     }
 
     pub fn vamm_idx(&self, addr: &str) -> Option<usize> {
@@ -1077,7 +1091,14 @@ impl World {
                 }
             }
         };
-        let coins = if funds > 0 { vec![Coin::new(funds, DENOM)] } else { vec![] };
+        let mut coins = if funds > 0 { vec![Coin::new(funds, DENOM)] } else { vec![] };
+        if *contract == self.engine {
+            match self.foreign_next.replace(0) {
+                1 => coins.insert(0, Coin::new(7, FOREIGN_DENOM)),
+                2 => coins.push(Coin::new(7, FOREIGN_DENOM)),
+                _ => {}
+            }
+        }
         let m = CosmosMsg::Wasm(WasmMsg::Execute { contract_addr: contract.to_string(), msg: bin, funds: coins });
         let s = Addr::unchecked(sender);
         let sf = Some((sender.to_string(), contract.to_string(), funds));
